@@ -89,8 +89,11 @@ def run(res, tier, seed, replay):
         for _ in range(3000 if quick else 60000):
             n = rng.randint(4, 14 if quick else 40)
             seqs.append([0] + [rng.choice(nesty if rng.random() < 0.8 else alphabet) for _ in range(n)])
+        for _ in range(3000 if quick else 60000):
+            seqs.append(K.gen_nested_items(rng, budget=rng.randint(4, 16 if quick else 40)))
     docs = [K.render_items(s) for s in seqs]
     n_bad = 0
+    scan_shapes = {}
     for stage in ("scan", "expand"):
         projects = [[("a.jst", d)] for d in docs]
         ni, nm, mism = K.compare(projects, "stage=" + stage)
@@ -112,8 +115,25 @@ def run(res, tier, seed, replay):
                 eb = edges_ok(forest) if stage == "scan" else []
                 if eb:
                     spec_bad.append((s, eb[0]))
+                full = K.parse_forest(a[1])
+                if stage == "scan":
+                    # the property, clause by clause, from an independent resolver
+                    sp = K.spec_resolve(s)
+                    if sp[0] != "ok":
+                        spec_bad.append((s, "accepted, but the context rule rejects it (%s)" % sp[1]))
+                    elif K.forest_parents(full) != sp[1]:
+                        spec_bad.append((s, "a directive is not under the nearest admitting parent: parents %r, the rule gives %r" % (K.forest_parents(full), sp[1])))
+                    scan_shapes[tuple(map(str, s))] = K.shape(full, [("a.jst", K.render_items(s))])
+                elif 21 not in s and 22 not in s:
+                    # no MACRO / PASTE: the second resolution must reproduce the first
+                    if scan_shapes.get(tuple(map(str, s))) != K.shape(full, [("a.jst", K.render_items(s))]):
+                        spec_bad.append((s, "the forest after the expansion stage differs from the scanned forest although the document has no macro"))
             elif a[0] == "err" and a[-1] in ("incorrectcontext", "incorrectcontextpath", "noexplicit", "notallclosed"):
                 res.nontrivial(("err", stage, tuple(map(str, s))))
+                if stage == "scan":
+                    sp = K.spec_resolve(s)
+                    if sp[0] == "ok":
+                        spec_bad.append((s, "rejected for %s, but every directive has a place and the parentheses balance" % a[-1]))
             elif a[0] not in ("ok", "err"):
                 spec_bad.append((s, "implementation outcome %s" % a[0]))
         res.notes["input_distribution_" + stage] = {"sequences": len(seqs), "verdicts": dist,
